@@ -48,7 +48,7 @@ func runC15(t *testing.T, seed uint64, m *Mask) *Report {
 	sc, nc, r := swarm(seed, m)
 	opt := world.Options{Seed: seed, Sim: sc, Net: nc}
 	proto := []string{"raw", "raw", "json", "pb", "thrift-binary"}[r.Intn(5)]
-	kinds := []string{"ok", "notfound", "badbody", "panic", "veto", "closed_call", "cut_pending", "dial_fail", "proxy_ok", "proxy_ok", "proxy_backend_closed", "proxy_push_backend_closed", "proxy_backend_cut", "proxy_push_ok", "reply_write_fails", "handshake_timeout", "plugin_panics_on_error_reply"}
+	kinds := []string{"ok", "notfound", "badbody", "panic", "veto", "closed_call", "cut_pending", "dial_fail", "proxy_ok", "proxy_ok", "proxy_backend_closed", "proxy_push_backend_closed", "proxy_backend_cut", "proxy_push_ok", "reply_write_fails", "handshake_timeout", "plugin_panics_on_error_reply", "relay_closed_status"}
 	n := 3 + r.Intn(13)
 	var hist []string
 	for i := 0; i < n; i++ {
@@ -105,6 +105,15 @@ func runC15(t *testing.T, seed uint64, m *Mask) *Report {
 		stamper := &c15Stamper{on: func() bool { p := stampPanics; stampPanics = false; return p }}
 		backend := e.NewPeer("backend", erpc.PeerConfig{}, veto, stamper)
 		rt := e.RegisterStd(backend)
+		// a gateway-style handler: it makes an onward call and hands that call's status back as its own
+		var relayTarget erpc.Session
+		relayRoute := backend.RouteCallFunc(func(c erpc.CallCtx, _ *world.Payload) (*world.Payload, *erpc.Status) {
+			simrt.YieldQuiet()
+			if relayTarget == nil {
+				return &world.Payload{}, nil
+			}
+			return nil, relayTarget.Call("/std/echo", &world.Payload{Tag: "onward"}, new(world.Payload), erpc.WithBodyCodec('j')).Status()
+		})
 		// the proxy peer forwards everything over one session to the backend (re-established on demand)
 		var fwd erpc.Session
 		var fwdConn *simnet.Conn
@@ -203,6 +212,13 @@ func runC15(t *testing.T, seed uint64, m *Mask) *Report {
 				}
 				e.Issue(direct, rt, op, nil)
 				stampPanics = false
+			case "relay_closed_status":
+				// the onward session is closed already: the handler returns the framework's own connection-closed status
+				if relayTarget == nil {
+					relayTarget, _, _, _ = e.ServePair(backend, cli, pf, pf)
+					relayTarget.Close()
+				}
+				direct.Call(relayRoute, &world.Payload{Tag: "relay"}, new(world.Payload), erpc.WithBodyCodec('j'))
 			case "handshake_timeout":
 				// a pre-session receive (the auth checker's handshake) runs under a context age and the client
 				// stays silent: the read times out
